@@ -64,6 +64,24 @@ impl C07 {
                     // a stream zlib accepts and whose construction we know: rejecting it is allowed
                     // (C07 speaks about streams the parser accepts) but worth counting
                     ctx.count(&format!("known_valid_stream_rejected:{}", c));
+                    // ... unless the frozen reference build (pinned + repairs) parses and re-serialises this very
+                    // stream: then the parser has lost a well-formed stream it used to handle, and parse-then-write
+                    // is no longer the identity on it
+                    if let Out::Ok((w0, used0, _)) = crate::api::ref1::parse_and_rewrite(d) {
+                        if used0 <= d.len() && w0[..] == d[..used0] {
+                            ctx.violation(
+                                "valid_stream_no_longer_parsed",
+                                &format!("valid_stream_no_longer_parsed|{}", c),
+                                &format!(
+                                    "a well-formed stream ({} bytes, accepted by zlib) that the reference build parses and rewrites identically is rejected by the current parser with {} on {}",
+                                    d.len(), c, label
+                                ),
+                                case,
+                                d,
+                            );
+                            return true;
+                        }
+                    }
                     ctx.note(
                         "known_valid_stream_rejected",
                         json!({"how": label, "err": c, "len": d.len(), "input": hex_prefix(d, 200)}),
